@@ -139,6 +139,10 @@ def src_of(v, _depth=0):
             if a[0] == 'FRESH' and a[3]:
                 s = src_of(a[3], _depth + 1)
                 if s != '?':
+                    # rows of a source held in a container built here: a materialised copy
+                    if s.startswith('row:') and a[1] in ('list', 'tuple', 'set', 'deque') and \
+                            any(b[0] in ('ROW', 'HDR') for b in a[3]):
+                        return 'mat:' + s[4:]
                     return s
     return '?'
 
